@@ -258,7 +258,14 @@ func (s *SwapV2) Export(state *types.AppState) {
 		return false
 	})
 
+	s.muPairs.RLock()
+	pairs := make(map[PairKey]*PairV2, len(s.pairs))
 	for key, pair := range s.pairs {
+		pairs[key] = pair
+	}
+	s.muPairs.RUnlock()
+
+	for key, pair := range pairs {
 		if pair == nil {
 			continue
 		}
